@@ -20,7 +20,7 @@ N = "npts(track)"
 A = "old(col(track, af_input1, %s))"
 B = "old(col(track, af_input2, %s))"
 U = "old(col(track, af_input, %s))"
-OTHER_OBS = ("all(implies(all(obs(track, q) != o for q in range(0, npts(track))), same(o.features, old(o.features))) "
+OTHER_OBS = ("all(implies(all(obs(track, q) != o for q in range(0, npts(track))), untouched(o, 'Obs.features')) "
              "for o in refs(Obs))")
 
 # name -> (formula of the value at index r, first index of the loop, last index excluded (None = n), edge values)
